@@ -115,8 +115,8 @@ theorem parseExtends_panic {e : Val} {s : String} (h : parseExtends e = .panic s
   · split at h <;> cases h
   · cases h
 
-theorem resolveBase_panic {E : Env} {name ref : String} {file : Option String} {S : KVs} {s : String}
-    (h : resolveBase E name ref file S = .panic s) : ∃ f, fsLookup f E.fs = some (.panic s) := by
+theorem resolveBase_panic {E : Env} {cur name ref : String} {file : Option String} {S : KVs} {s : String}
+    (h : resolveBase E cur name ref file S = .panic s) : ∃ f, fsLookup f E.fs = some (.panic s) := by
   unfold resolveBase at h
   cases file with
   | none => simp only at h; split at h <;> cases h
@@ -127,14 +127,14 @@ theorem resolveBase_panic {E : Env} {name ref : String} {file : Option String} {
     exact ⟨f, baseFromFile_panic hb⟩
 
 /-- one unfolding of `applySvc` on a panicking run -/
-theorem applySvc_panic_cases {E : Env} {fuel : Nat} {n : String} {cur : KVs} {tr : List Key} {s : String}
-    (h : applySvc E (fuel + 1) n cur tr = .panic s) :
+theorem applySvc_panic_cases {E : Env} {fuel : Nat} {cf n : String} {cur : KVs} {tr : List Key} {s : String}
+    (h : applySvc E (fuel + 1) cf n cur tr = .panic s) :
     s = panicSite ∨
     (∃ svc e ref file, lookup n cur = some (.map svc) ∧ lookup "extends" svc = some e ∧
       parseExtends e = .ok (ref, file) ∧
-      (resolveBase E n ref file cur = .panic s ∨
-       ∃ svcs key same tr', resolveBase E n ref file cur = .ok (svcs, key, same) ∧ trackerAdd tr key = some tr' ∧
-         (applySvc E fuel ref svcs tr' = .panic s ∨ (∃ b, E.extend b svc = .panic s) ∨ s = panicSite))) := by
+      (resolveBase E cf n ref file cur = .panic s ∨
+       ∃ svcs key same tr', resolveBase E cf n ref file cur = .ok (svcs, key, same) ∧ trackerAdd tr key = some tr' ∧
+         (applySvc E fuel (nextFile cf file) ref svcs tr' = .panic s ∨ (∃ b, E.extend b svc = .panic s) ∨ s = panicSite))) := by
   simp only [applySvc] at h
   split at h <;> try cases h
   rename_i svc hsvc
@@ -170,45 +170,46 @@ theorem applySvc_panic_cases {E : Env} {fuel : Nat} {n : String} {cur : KVs} {tr
 
 theorem panicSite_ne_fuelMark : panicSite ≠ fuelMark := by decide
 
-/-- the key recorded for a step lies in the universe, and the mapping recursed into has known names -/
-theorem resolveBase_key {E : Env} {S0 cur svcs : KVs} {n ref : String} {file : Option String} {key : Key} {same : Bool}
-    (hk : KeysSub E S0 cur) (hn : lookup n cur ≠ none)
-    (h : resolveBase E n ref file cur = .ok (svcs, key, same)) :
-    key ∈ keyUniverse E S0 ∧ KeysSub E S0 svcs := by
+/-- the key recorded for a step lies in the universe, the mapping recursed into has known names, and the
+file the recursion continues in is a known file -/
+theorem resolveBase_key {E : Env} {S0 cur svcs : KVs} {cf n ref : String} {file : Option String} {key : Key} {same : Bool}
+    (hcf : cf ∈ allFiles E) (hk : KeysSub E S0 cur) (hn : lookup n cur ≠ none)
+    (h : resolveBase E cf n ref file cur = .ok (svcs, key, same)) :
+    key ∈ keyUniverse E S0 ∧ KeysSub E S0 svcs ∧ nextFile cf file ∈ allFiles E := by
   obtain ⟨_, _, hc⟩ := resolveBase_ok h
-  rcases hc with ⟨_, hS, _, hkey⟩ | ⟨_, f, _, hfs, hkey⟩
-  · subst hkey; subst hS
-    exact ⟨mem_keyUniverse (by simp [allFiles]) (hk n hn), hk⟩
-  · subst hkey
+  rcases hc with ⟨_, hS, hf, hkey⟩ | ⟨_, f, hf, hfs, hkey⟩
+  · subst hkey; subst hS; subst hf
+    exact ⟨mem_keyUniverse hcf (hk n hn), hk, hcf⟩
+  · subst hkey; subst hf
     obtain ⟨a, b⟩ := fileServices_keysSub (S0 := S0) hfs
-    exact ⟨mem_keyUniverse b (hk n hn), a⟩
+    exact ⟨mem_keyUniverse hcf (hk n hn), a, b⟩
 
 theorem applySvc_no_fuel (E : Env) (hE : FuelFree E) (S0 : KVs) :
-    ∀ (fuel : Nat) (n : String) (cur : KVs) (tr : List Key),
-      KeysSub E S0 cur → tr.Nodup → (∀ k ∈ tr, k ∈ keyUniverse E S0) →
+    ∀ (fuel : Nat) (cf n : String) (cur : KVs) (tr : List Key),
+      cf ∈ allFiles E → KeysSub E S0 cur → tr.Nodup → (∀ k ∈ tr, k ∈ keyUniverse E S0) →
       (keyUniverse E S0).length + 1 ≤ fuel + tr.length →
-      applySvc E fuel n cur tr ≠ .panic fuelMark ∧
-      ∀ v cur', applySvc E fuel n cur tr = .ok (v, cur') → KeysSub E S0 cur' := by
+      applySvc E fuel cf n cur tr ≠ .panic fuelMark ∧
+      ∀ v cur', applySvc E fuel cf n cur tr = .ok (v, cur') → KeysSub E S0 cur' := by
   intro fuel
   induction fuel with
   | zero =>
-    intro n cur tr _ hnd hsub hlen
+    intro cf n cur tr _ _ hnd hsub hlen
     have := nodup_length_le tr _ hnd hsub
     omega
   | succ fuel ih =>
-    intro n cur tr hk hnd hsub hlen
+    intro cf n cur tr hcf hk hnd hsub hlen
     -- facts about the recursive call, shared by both halves
     have hrec : ∀ svc e ref file svcs key same tr', lookup n cur = some (.map svc) →
         lookup "extends" svc = some e → parseExtends e = .ok (ref, file) →
-        resolveBase E n ref file cur = .ok (svcs, key, same) → trackerAdd tr key = some tr' →
-        applySvc E fuel ref svcs tr' ≠ .panic fuelMark ∧
-        (∀ v cur', applySvc E fuel ref svcs tr' = .ok (v, cur') → KeysSub E S0 cur') := by
+        resolveBase E cf n ref file cur = .ok (svcs, key, same) → trackerAdd tr key = some tr' →
+        applySvc E fuel (nextFile cf file) ref svcs tr' ≠ .panic fuelMark ∧
+        (∀ v cur', applySvc E fuel (nextFile cf file) ref svcs tr' = .ok (v, cur') → KeysSub E S0 cur') := by
       intro svc e ref file svcs key same tr' h1 _ _ h4 h5
       have hn : lookup n cur ≠ none := by rw [h1]; simp
-      obtain ⟨hkey, hks⟩ := resolveBase_key hk hn h4
+      obtain ⟨hkey, hks, hnf⟩ := resolveBase_key hcf hk hn h4
       obtain ⟨hnotin, htr'⟩ := trackerAdd_some h5
       subst htr'
-      refine ih ref svcs (tr ++ [key]) hks ?_ ?_ ?_
+      refine ih (nextFile cf file) ref svcs (tr ++ [key]) hnf hks ?_ ?_ ?_
       · rw [List.nodup_append]
         refine ⟨hnd, by simp, ?_⟩
         intro a ha b hb
@@ -254,7 +255,7 @@ theorem applyAll_no_fuel (E : Env) (hE : FuelFree E) (S0 : KVs) :
   | nil => intro cur _ _; simp [applyAll]
   | cons n ns ih =>
     intro cur hk hn
-    obtain ⟨h1, h2⟩ := applySvc_no_fuel E hE S0 (fuelFor E S0) n cur [] hk List.nodup_nil
+    obtain ⟨h1, h2⟩ := applySvc_no_fuel E hE S0 (fuelFor E S0) E.mainFile n cur [] (by simp [allFiles]) hk List.nodup_nil
       (fun k hk' => by cases hk') (by simp [fuelFor])
     simp only [applyAll]
     split
